@@ -14,6 +14,7 @@ extra = {}
 if os.path.exists('/verif/seeded/NOTES.json'):
     extra = json.load(open('/verif/seeded/NOTES.json'))
 rows = []
+recs = []
 tot = dict(caught=0, missed=0, other=0, neutral=0)
 for s in sorted(os.listdir('/verif/seeded')):
     d = f'/verif/seeded/{s}'
@@ -49,6 +50,8 @@ for s in sorted(os.listdir('/verif/seeded')):
     first = r.get('first', '')
     if len(first) > 90:
         first = first[:90] + '…'
+    what = what.replace('|', '/')
+    recs.append((s, what, oc, (first + ' ' + note).strip()))
     rows.append(f"| {s} | {', '.join(os.path.basename(x) for x in files)[:40]} | {what} | {ver.get('status','-')} | {oc} | {first} {note} |")
     if meta:
         meta['framework_result'] = dict(check=r.get('check'), tier=r.get('tier'), outcome=oc, first_finding=r.get('first', ''), note=note)
@@ -75,10 +78,9 @@ for rd in sorted(rounds):
     c = rounds[rd]
     out.append(f"| {rd} | {c.get('caught',0)} | {c.get('missed',0)} | {c.get('n/a',0)} | {sum(v for k,v in c.items() if k not in ('caught','missed','n/a'))} |")
 out += ["", "Seeds not reported by their own property's quick check on the final tree:", "", "| seed | clause broken | note |", "|---|---|---|"]
-for row in rows:
-    f = [x.strip() for x in row.strip('|').split('|')]
-    if f[4] != 'caught':
-        out.append(f"| {f[0]} | {f[2]} | {f[4]}: {f[5]} |")
+for (sd, what_, oc_, note_) in recs:
+    if oc_ != 'caught':
+        out.append(f"| {sd} | {what_} | {oc_}: {note_} |")
 out.append("<!-- CATCH-MATRIX-END -->")
 p = '/verif/DESIGN.md'
 s = open(p).read()
